@@ -28,6 +28,7 @@ CONSTANTS
  CheckIdent = TRUE
  RelayOnce = TRUE
  CandsGuard = TRUE
+ DataGuard = TRUE
  SuspendJoin = FALSE
  JoinCacheFirst = TRUE
  AutoTimers = FALSE
